@@ -25,9 +25,11 @@ type Oblig struct {
 	disj   []*Term
 	negs   []*Term // per entry of disj: the negated goal conjunct (nil if unknown)
 	raw    []*Term // disj before quantifier instantiation
+	rawNegs []*Term
 	paths  int
 	props  []string
 	clause string
+	distinct map[[2]int]bool // reference pairs known to differ (from the target's preconditions)
 }
 
 type ghostInfo struct {
@@ -168,6 +170,17 @@ func (x *Exec) contractFor(f *ssa.Function) *FuncContract {
 	return pc.funcs[f.RelString(f.Pkg.Pkg)]
 }
 
+// externContract finds an assumed contract for a function outside the repository (declared with
+// "extern" in any loaded contract file).
+func (x *Exec) externContract(name string) *FuncContract {
+	for _, pc := range x.contracts {
+		if c := pc.externs[name]; c != nil {
+			return c
+		}
+	}
+	return nil
+}
+
 func (x *Exec) ifaceContract(recv types.Type, m *types.Func) *FuncContract {
 	nt, ok := recv.(*types.Named)
 	if !ok {
@@ -233,7 +246,7 @@ func (x *Exec) oblige(st *State, name, kind, desc string, pos token.Pos, goal *T
 	o := x.obligs[name]
 	if o == nil {
 		p, _ := x.srcLine(pos)
-		o = &Oblig{name: name, kind: kind, fn: x.target.String(), desc: desc, pos: p, props: x.curProps}
+		o = &Oblig{name: name, kind: kind, fn: x.target.String(), desc: desc, pos: p, props: x.curProps, distinct: knownDistinct}
 		x.obligs[name] = o
 		x.oblOrder = append(x.oblOrder, name)
 	}
@@ -312,9 +325,9 @@ func (x *Exec) wf(st *State, v SV) {
 			if ln.isConst() && cp.isConst() && off.isConst() {
 				continue
 			}
-			st.assume(BvCmp("bvule", ln, cp))
-			st.assume(BvCmp("bvule", cp, lim))
-			st.assume(BvCmp("bvule", off, lim))
+			st.assume(lenLe(ln, cp))
+			st.assume(BvCmp("bvsle", cp, lim))
+			st.assume(lenLe(off, lim))
 		}
 	}
 }
@@ -528,6 +541,8 @@ type abortErr struct{ msg string }
 func (x *Exec) VerifyFunc(fn *ssa.Function, c *FuncContract) (err error) {
 	x.reset(fn, c)
 	x.curProps = c.props
+	knownDistinct = map[[2]int]bool{}
+	defer func() { knownDistinct = map[[2]int]bool{} }()
 	defer func() {
 		if r := recover(); r != nil {
 			switch e := r.(type) {
@@ -661,6 +676,7 @@ func (x *Exec) VerifyFunc(fn *ssa.Function, c *FuncContract) (err error) {
 				return fmt.Errorf("%s:%d: requires %s: %v", r.file, r.line, r.text, e)
 			}
 			s1.assume(t)
+			recordDistinct(t)
 		}
 		s1.entry = s1.clone()
 		if k == 0 {
@@ -884,7 +900,7 @@ func (x *Exec) havocMod(st *State, ml modLoc, hint string) {
 		old := Select(r, base)
 		nw := mkVar(freshName("hv_"+hint+li.leaves[k].path), s.elem)
 		j := mkBound(freshName("j"), I64)
-		outside := Or(BvCmp("bvult", j, ml.off), BvCmp("bvuge", j, BvBin("bvadd", ml.off, ml.n)))
+		outside := Or(BvCmp("bvslt", j, ml.off), BvCmp("bvsge", j, BvBin("bvadd", ml.off, ml.n)))
 		st.assume(Forall([]*Term{j}, Implies(outside, Eq(Select(nw, j), Select(old, j)))))
 		st.setRegion(li.key(k), Store(r, base, nw))
 	}
@@ -908,6 +924,7 @@ func (x *Exec) frameCheck(st *State, fr *Frame, env *Env, c *FuncContract, pos t
 		}
 	}
 	var goals []*Term
+	usesJ := false
 	r := mkVar("frame!r", RefS)
 	jj := mkVar("frame!j", I64)
 	pre := BvCmp("bvult", r, mkBVu(0x80000000, 32))
@@ -932,7 +949,7 @@ func (x *Exec) frameCheck(st *State, fr *Frame, env *Env, c *FuncContract, pos t
 			if p.ent && isGhostMap {
 				hit = Eq(gj, p.idx)
 			} else if p.rng && isBacking {
-				inside := And(BvCmp("bvule", p.off, jj), BvCmp("bvult", jj, BvBin("bvadd", p.off, p.n)))
+				inside := And(BvCmp("bvsle", p.off, jj), BvCmp("bvslt", jj, BvBin("bvadd", p.off, p.n)))
 				hit = And(Eq(r, p.base), inside)
 			} else {
 				hit = Eq(r, p.base)
@@ -952,10 +969,22 @@ func (x *Exec) frameCheck(st *State, fr *Frame, env *Env, c *FuncContract, pos t
 		if isGhostMap {
 			goals = append(goals, Implies(And(conds...), Eq(Select(Select(now, r), gj), Select(Select(init, r), gj))))
 		} else if isBacking {
+			usesJ = true
 			goals = append(goals, Implies(And(conds...), Eq(Select(Select(now, r), jj), Select(Select(init, r), jj))))
 		} else {
 			goals = append(goals, Implies(And(conds...), Eq(Select(now, r), Select(init, r))))
 		}
+	}
+	if usesJ {
+		// the element index is split into three ranges: inside the range of valid indices (A6) the
+		// comparisons with it can be normalised (linarith.go); outside it no write can hit
+		lim := mkBVu(1<<42, 64)
+		for _, rg := range []*Term{BvCmp("bvslt", jj, mkBV(0, 64)),
+			And(BvCmp("bvsle", mkBV(0, 64), jj), BvCmp("bvsle", jj, lim)),
+			BvCmp("bvslt", lim, jj)} {
+			x.oblige(st, name, "frame", "only locations in the modifies clause change", pos, Implies(rg, And(goals...)))
+		}
+		return
 	}
 	x.oblige(st, name, "frame", "only locations in the modifies clause change", pos, And(goals...))
 }
